@@ -86,7 +86,18 @@ def run_worker(args, hashseed, timeout):
     return res
 
 
-def replay_file(path, hashseed=None, trace=False):
+def replay_file(path, hashseed=None, trace=False, ignore_known=False):
+    if ignore_known:
+        os.environ["VERIF_IGNORE_KNOWN"] = "1"
+    else:
+        os.environ.pop("VERIF_IGNORE_KNOWN", None)
+    try:
+        return _replay_file(path, hashseed, trace)
+    finally:
+        os.environ.pop("VERIF_IGNORE_KNOWN", None)
+
+
+def _replay_file(path, hashseed=None, trace=False):
     case = json.load(open(path))
     hs = hashseed if hashseed is not None else case.get("hashseed", "0")
     if trace:
@@ -95,7 +106,8 @@ def replay_file(path, hashseed=None, trace=False):
 
 
 def cmd_replay(prop, path):
-    case, res = replay_file(path, trace=bool(os.environ.get("VERIF_TRACE")))
+    case, res = replay_file(path, trace=bool(os.environ.get("VERIF_TRACE")),
+                            ignore_known="/findings/" in os.path.abspath(path))
     if "error" in res:
         print(f"HARNESS-ERROR replay: {res['error']}\n{res.get('stderr', '')}")
         return 2
@@ -132,6 +144,10 @@ def main(argv=None):
     blocks = a.blocks or blocks
     runs = a.runs or runs
     outdir = os.path.join(ROOT, "replays")
+    os.makedirs(outdir, exist_ok=True)
+    for f in os.listdir(outdir):  # leftovers of an earlier batch with the same seed
+        if f.startswith(f"STOP-{prop}-{seed}") or f.startswith(f"{prop}-{seed}-"):
+            os.remove(os.path.join(outdir, f))
     t0 = time.time()
     print(f"[{prop}] tier={tier} VERIF_SEED={seed} blocks={blocks} runs/block={runs} workers={NPROC} "
           f"pint={os.environ.get('VERIF_PINT_PATH', '/repo')}", flush=True)
@@ -170,7 +186,7 @@ def main(argv=None):
             line = f"KNOWN-FINDING: property={prop} {k['id']}: {k['what']}"
             rp = k.get("replay")
             if rp:
-                _, res = replay_file(os.path.join(ROOT, rp))
+                _, res = replay_file(os.path.join(ROOT, rp), ignore_known=True)
                 if "error" in res:
                     errors.append({"error": f"replay of known finding {k['id']} failed: {res['error']}",
                                    "stderr": res.get("stderr", "")})
@@ -187,7 +203,11 @@ def main(argv=None):
     # ---- violations found by this batch: confirm by replay in a fresh interpreter, classify
     reported = 0
     suppressed = {}
+    violations.sort(key=lambda r: (len(json.dumps(r["violation"])), r.get("index", 0)))
     for rec in violations:
+        if reported >= 5:
+            print(f"  (+{len(violations) - 5} further violation records not replayed)")
+            break
         k = match_known(known, prop, rec)
         if k is not None:
             suppressed[k["id"]] = suppressed.get(k["id"], 0) + 1
@@ -228,6 +248,9 @@ def main(argv=None):
     if not a.no_evidence and exit_code != 2:
         write_evidence(prop, tier, seed, nruns, total, samples, wall_s, reported, blocks, runs,
                        suppressed, n_harness)
+    stop = os.path.join(outdir, f"STOP-{prop}-{seed}")
+    if os.path.exists(stop):
+        os.remove(stop)
     rate = nruns / wall_s * 3600 if wall_s > 0 else 0
     print(f"[{prop}] runs={nruns} steps={total.steps} oracle_checks={total.checks} "
           f"transitions={len(total.transitions)} violations={reported} wall={wall_s:.1f}s "
